@@ -34,6 +34,21 @@ func checkC08(c *Ctx) {
 			Abstract: true,
 		})
 	}
+	if !c.Quick() {
+		// more automaton states (6): every lexer with <= 6 states
+		if g6, err := c.Generate("atlex6", "a : 'a' ;\nb : 'b' ;\n!c : 'c' ;\nd : 'd' ;\n!e : 'e' ;\n"); err == nil && g6.Exit == 0 {
+			t6 := g6.Target("lexer", "genlexer/at.go")
+			for n := 1; n <= 4; n++ {
+				jobs = append(jobs, Job{
+					Name:     fmt.Sprintf("scan-step 6-states N=%d", n),
+					Target:   t6,
+					Run:      SymRun{Harness: "VerifC08Step", Params: map[string]int{"N": n}, LoopBound: 16, LoopBounds: map[string]int{"Scan": n + 3}},
+					Bounds:   fmt.Sprintf("every source of %d bytes, every start offset on the decode chain, every lexer with <= 6 states (abstract tables)", n),
+					Abstract: true,
+				})
+			}
+		}
+	}
 	// concrete corpus lexers: same harness on the real generated tables
 	for _, lg := range LexCorpus {
 		gg, err := c.Generate("lex_"+lg.Name, lg.Text)
